@@ -134,6 +134,17 @@ func (g *ExecutionGraph) IsRunning() bool {
 	return false
 }
 
+// hasActiveWorker tells whether the worker goroutine of any node is still at
+// work, i.e. whether a step's process can still be alive.
+func (g *ExecutionGraph) hasActiveWorker() bool {
+	for _, node := range g.Nodes() {
+		if node.inFlight.Load() {
+			return true
+		}
+	}
+	return false
+}
+
 func (g *ExecutionGraph) FinishAt() time.Time {
 	g.mu.RLock()
 	defer g.mu.RUnlock()
